@@ -232,8 +232,10 @@ class PolicyGen:
             # load offset 16 + 8*index is computed in 32 bits)
             arg = rng.choice([6, 6, 6, 7, 8, 100, M32, 1 << 31, (1 << 29) + rng.randint(0, 5), (1 << 30) + rng.randint(0, 5),
                               (3 << 29) + rng.randint(0, 5), (1 << 31) + rng.randint(0, 5), (7 << 29) + rng.randint(0, 5), M32 - 1])
-        if bad == "op":
+        if bad in ("op", "both"):
             op = "Other%d" % rng.randint(0, 5)
+        if bad == "both":
+            arg = rng.choice([6, 7, 100, M32])
         return (arg, op, self.operand())
 
     def policy(self, archname=None, kind=None, defect=None):
@@ -379,8 +381,22 @@ class PolicyGen:
         p2["kind"] = pol["kind"] + "/edited-in-place"
         return p2
 
+    def siblings(self, pol):
+        """Two fresh policies that differ from [pol] and from each other only in the (unnamed) action of one group."""
+        import copy
+        rng = self.rng
+        i = rng.randrange(len(pol["groups"]))
+        acts = rng.sample([0x50000 | 13, 0x50000 | 38, 0x7ff00000 | 7, 0x7ff00000 | 1, 0x30000 | 5, 0x50000 | 4095, 0x7ffc0000 | 3], 2)
+        out = []
+        for a in acts:
+            p2 = copy.deepcopy(pol)
+            p2["groups"][i]["action"] = a
+            p2["kind"] = pol["kind"] + "/sibling"
+            out.append(p2)
+        return out
+
     DEFECTS = ["default_unnamed", "no_groups", "unknown_name", "unknown_cond_name", "dup_name", "cond_uncond",
-               "argidx", "badop", "empty_conds"]
+               "argidx", "badop", "empty_conds", "argidx_and_badop"]
 
     def inject(self, pol, defect, names_all):
         rng = self.rng
@@ -420,13 +436,13 @@ class PolicyGen:
                 g["names"].append(rng.choice(cand))
             nm = rng.choice(g["names"])
             g["nwc"].insert(rng.randint(0, len(g["nwc"])), dict(name=nm, conds=[self.cond()]))
-        elif defect in ("argidx", "badop"):
+        elif defect in ("argidx", "badop", "argidx_and_badop"):
             if not g["nwc"]:
                 cand = [n for n in names_all if n not in g["names"]]
                 g["nwc"].append(dict(name=rng.choice(cand), conds=[self.cond()]))
             w = rng.choice(g["nwc"])
             w["conds"] = list(w["conds"])
-            w["conds"].insert(rng.randint(0, len(w["conds"])), self.cond(bad="argidx" if defect == "argidx" else "op"))
+            w["conds"].insert(rng.randint(0, len(w["conds"])), self.cond(bad={"argidx": "argidx", "badop": "op"}.get(defect, "both")))
         elif defect == "empty_conds":
             cand = [n for n in names_all if n not in g["names"]]
             g["nwc"].insert(rng.randint(0, len(g["nwc"])), dict(name=rng.choice(cand), conds=[]))
